@@ -9,3 +9,4 @@ CONSTANTS
   Travs <- AllTravs
   MaxSteps = 7
   ViewHist = 1
+  EmitAll = TRUE
